@@ -184,6 +184,396 @@ do_case(const struct rc_day *p, int c, struct dt_dt_s v, int n, const struct dur
 	return bad;
 }
 
+/* ---- CHAIN: several durations in ONE invocation ----
+ * dadd collects its duration arguments (and, with a date argument only, the durations of
+ * each stdin line) into one list through dt_io_strpdtdur()/__add_dur() with one parser
+ * state and applies them one after the other (dadd.c:dadd_add).  The list builder is tool
+ * code (src/dt-io.c), so the chains go through exactly that builder: form=args (one
+ * argument per duration) and form=line (one string "+1b -2b", as a stdin line).
+ * Model: the single-step oracles composed - b: the n-th Monday-Friday state strictly
+ * after/before, d/w: successor steps, mo (ymd ymcw bizda only): consecutive month steps
+ * add up (C04: +a +b = +(a+b)) and the day/count/index is cropped when another unit
+ * follows or at the end. */
+enum { L_B, L_D, L_W, L_MO };
+static const char *const lunit_name[] = {"b", "d", "w", "mo"};
+struct letter_s {
+	char txt[8];
+	int unit, n;
+};
+#define NLET	20
+static struct letter_s letters[NLET];
+/* 28-day windows of start days: a year end, a leap day / month end, a century-leap year end */
+static const int chain_win[][3] = {{2023, 12, 18}, {2024, 2, 15}, {1999, 12, 20}};
+#define NCWIN		((int)(sizeof(chain_win) / sizeof(*chain_win)))
+#define CWIN_DAYS	28
+#define MAXCHAIN	3
+
+static void
+mk_letters(void)
+{
+	int k = 0;
+	for (int n = 1; n <= 7; n++) {
+		snprintf(letters[k].txt, 8, "%+db", n), letters[k].unit = L_B, letters[k++].n = n;
+		snprintf(letters[k].txt, 8, "%+db", -n), letters[k].unit = L_B, letters[k++].n = -n;
+	}
+	for (int u = L_D; u <= L_MO; u++) {
+		snprintf(letters[k].txt, 8, "+1%s", lunit_name[u]), letters[k].unit = u, letters[k++].n = 1;
+		snprintf(letters[k].txt, 8, "-1%s", lunit_name[u]), letters[k].unit = u, letters[k++].n = -1;
+	}
+}
+
+/* the tool's list builder: FORM 0 = one argument per duration, 1 = one string */
+static int
+chain_durs(struct durs_s *out, const int *ix, int len, int form)
+{
+	struct __strpdtdur_st_s st = {0};
+	char line[64] = "";
+	int rc = 0;
+
+	out->n = 0;
+	if (form == 0) {
+		for (int i = 0; i < len && rc == 0; i++) {
+			do {
+				if (dt_io_strpdtdur(&st, letters[ix[i]].txt) < 0) {
+					rc = -1;
+					break;
+				}
+			} while (__strpdtdur_more_p(&st));
+		}
+	} else {
+		for (int i = 0; i < len; i++) {
+			strcat(line, i ? " " : "");
+			strcat(line, letters[ix[i]].txt);
+		}
+		do {
+			if (dt_io_strpdtdur(&st, line) < 0) {
+				rc = -1;
+				break;
+			}
+		} while (__strpdtdur_more_p(&st));
+	}
+	if (rc == 0 && st.ndurs <= MAXDURS) {
+		for (size_t i = 0; i < st.ndurs; i++) {
+			out->d[i] = st.durs[i];
+		}
+		out->n = (int)st.ndurs;
+	} else {
+		rc = -1;
+	}
+	__strpdtdur_free(&st);
+	return rc;
+}
+
+/* month step of the model for ymd / ymcw / bizda names of day RD; -1 outside the range */
+static int
+chain_month(int c, int rd, int months)
+{
+	const struct rc_day *p = rc_get(rd);
+	long ym = (long)p->y * 12 + (p->m - 1) + months;
+	int y = (int)(ym / 12), m = (int)(ym % 12) + 1;
+	int first, len, last = -1, hit = -1, cnt = 0;
+
+	if (y < RC_MIN_YEAR || y > RC_MAX_YEAR) {
+		return -1;
+	}
+	first = rc_rd(y, m, 1);
+	len = rc_mlen(y, m);
+	if (cal_base[c] == C_YMD) {
+		return first + (p->d <= len ? p->d : len) - 1;
+	}
+	for (int k = first; k < first + len; k++) {
+		if (cal_base[c] == C_YMCW && rc_tab[k].wd == p->wd) {
+			last = k;
+			if (++cnt == p->mcnt) {
+				hit = k;
+			}
+		} else if (cal_base[c] == C_BIZDA && rc_tab[k].isbd) {
+			last = k;
+			if (rc_tab[k].bd == p->bd) {
+				hit = k;
+			}
+		}
+	}
+	return hit >= 0 ? hit : last;
+}
+
+/* model of a chain from day RD held in calendar C: the target rd, -1 outside the range,
+ * -2 if the chain is not judged (month step in a calendar without months, or a bizda value
+ * passing through a weekend day) */
+static int
+chain_model(int c, int rd, const int *ix, int len)
+{
+	int anchor = rd, pend = 0, havep = 0;
+
+	for (int i = 0; i <= len; i++) {
+		const struct letter_s *l = i < len ? letters + ix[i] : NULL;
+		if (l && l->unit == L_MO) {
+			if (!(c == C_YMD || c == C_YMCW || c == C_BIZDA)) {
+				return -2;
+			}
+			pend += l->n;
+			havep = 1;
+			continue;
+		}
+		if (havep) {
+			/* another unit follows (or the end): the months are added and cropped */
+			if ((anchor = chain_month(c, anchor, pend)) < 0) {
+				return -1;
+			}
+			pend = havep = 0;
+		}
+		if (l == NULL) {
+			break;
+		}
+		switch (l->unit) {
+		case L_B: anchor = bz_target(anchor, l->n); break;
+		case L_D: anchor += l->n; break;
+		default: anchor += 7 * l->n; break;
+		}
+		if (anchor < 0 || anchor >= RC_NDAYS) {
+			return -1;
+		}
+		if (cal_base[c] == C_BIZDA && !rc_tab[anchor].isbd) {
+			return -2;
+		}
+	}
+	return anchor;
+}
+
+static uint64_t *c_chain, *c_chain_skip, *c_chain_forms;
+
+static void
+chain_key(char *key, size_t ksz, int c, const struct rc_day *p, const int *ix, int len, int form)
+{
+	char units[32] = "", signs[8] = "";
+	for (int i = 0; i < len; i++) {
+		strcat(units, i ? "," : "");
+		strcat(units, lunit_name[letters[ix[i]].unit]);
+		signs[i] = letters[ix[i]].n > 0 ? '+' : '-';
+	}
+	signs[len] = '\0';
+	snprintf(key, ksz, "chain cal=%s units=%s start=%s signs=%s%s", cal_name[c], units, p->isbd ? "weekday" : "weekend", signs,
+		 form ? " form=line" : "");
+}
+
+static int
+do_chain(const struct rc_day *p, int c, struct dt_dt_s v, const int *ix, int len, int replay)
+{
+	struct durs_s ds[2];
+	int trd = chain_model(c, p->rd, ix, len);
+	const struct rc_day *t;
+	int bad = 0, nforms;
+
+	if (trd < 0) {
+		++*(trd == -1 ? c_skip_range : c_chain_skip);
+		if (replay) {
+			printf("  chain not judged (%s)\n", trd == -1 ? "outside 1601..4095" : "month step without months / bizda through a weekend");
+		}
+		return 0;
+	}
+	t = rc_get(trd);
+	if (chain_durs(&ds[0], ix, len, 0) < 0 || chain_durs(&ds[1], ix, len, 1) < 0) {
+		fprintf(stderr, "BROKEN-CHECK: a chain of accepted duration texts is not accepted\n");
+		exit(3);
+	}
+	/* the two forms give the same list unless the builder depends on the form */
+	nforms = (ds[0].n == ds[1].n && !memcmp(ds[0].d, ds[1].d, sizeof(ds[0].d[0]) * (size_t)ds[0].n)) ? 1 : 2;
+	if (nforms == 2) {
+		++*c_chain_forms;
+	}
+	for (int f = 0; f < nforms; f++) {
+		struct dt_dt_s r = apply_durs(v, &ds[f]);
+		char got[NOBS][64];
+		unsigned int daisy = obs_daisy(r);
+		int ok;
+
+		++*c_eval;
+		++*c_trans;
+		++*c_chain;
+		memset(got, 0, sizeof(got));
+		snprintf(got[O_DAISY], 64, "%u", daisy);
+		dt_strfdt(got[O_DFLT], 64, NULL, r);
+		dt_strfdt(got[O_F], 64, "%F", r);
+		*c_eval += 3;
+		ex_outcome(ex_hash_mix(ex_hash(got[O_DFLT], strlen(got[O_DFLT])), daisy));
+		ok = !dt_unk_p(r) && daisy == (unsigned int)trd + 1U && dflt_agrees(c, t, got[O_DFLT]) && ymd_agrees(t, got[O_F]);
+		if (!ok) {
+			char key[160];
+			bad++;
+			chain_key(key, sizeof(key), c, p, ix, len, f);
+			if (!ex_viol_known(key, (double)p->rd)) {
+				char text[48], cas[96], cmd[256], chain[64] = "", exp[64];
+				cal_text(c, p, text, sizeof(text));
+				for (int i = 0; i < len; i++) {
+					strcat(chain, i ? " " : "");
+					strcat(chain, letters[ix[i]].txt);
+				}
+				snprintf(cas, sizeof(cas), "chain %d %d %d %d %d %d", c, p->rd, len, ix[0], len > 1 ? ix[1] : 0, len > 2 ? ix[2] : 0);
+				if (f == 0) {
+					const char *cp = dadd_cmd(cmd, sizeof(cmd), c, text, chain, NULL);
+					(void)cp;
+				} else {
+					snprintf(cmd, sizeof(cmd), "echo '%s' | dadd%s%s%s %s", chain, cal_ifmt[c] ? " -i '" : "",
+						 cal_ifmt[c] ? cal_ifmt[c] : "", cal_ifmt[c] ? "'" : "", text);
+				}
+				exp_dflt(c, t, exp, sizeof(exp));
+				ex_viol(key, (double)p->rd, cas, c == C_DAISY ? NULL : cmd,
+					"%04d-%02d-%02d (%s) given as '%s' (%s) with the durations '%s' in one invocation (%s, the tool's list has %d entries): "
+					"default output '%s', %%F '%s', day count %s; applying them one after the other gives %04d-%02d-%02d (%s) = '%s'",
+					p->y, p->m, p->d, rc_abbr_wday[p->wd], text, cal_name[c], chain, f ? "one string, as a stdin line" : "one argument each",
+					ds[f].n, got[O_DFLT], got[O_F], got[O_DAISY], t->y, t->m, t->d, rc_abbr_wday[t->wd], exp);
+			}
+		}
+		if (replay) {
+			printf("  %04d-%02d-%02d %s (%s) form %s, list of %d: model %04d-%02d-%02d %s; dflt '%s' %%F '%s' daisy '%s' %s\n",
+			       p->y, p->m, p->d, rc_abbr_wday[p->wd], cal_name[c], f ? "line" : "args", ds[f].n, t->y, t->m, t->d,
+			       rc_abbr_wday[t->wd], got[O_DFLT], got[O_F], got[O_DAISY], ok ? "(agrees)" : "DISAGREES");
+		}
+	}
+	return bad;
+}
+
+/* all chains from one start day */
+static void
+chains_of_day(const struct rc_day *p)
+{
+	int maxlen = ex.thorough ? 3 : 2;
+	EX_CTR(c_tr, "traces");
+
+	for (int c = 0; c < NCAL; c++) {
+		struct dt_dt_s v;
+		int ix[MAXCHAIN];
+		if (cal_value(c, p, &v) <= 0) {
+			continue;	/* parse failures are reported by the single steps */
+		}
+		for (ix[0] = 0; ix[0] < NLET; ix[0]++) {
+			for (ix[1] = 0; ix[1] < NLET; ix[1]++) {
+				do_chain(p, c, v, ix, 2, 0);
+				if (maxlen >= 3) {
+					for (ix[2] = 0; ix[2] < NLET; ix[2]++) {
+						do_chain(p, c, v, ix, 3, 0);
+					}
+				}
+			}
+		}
+		++*c_tr;
+	}
+}
+
+/* binding of the chains: the dadd binary with (a) two business-day arguments and the
+ * window days (ymd) on stdin, (b) a date argument and all pairs as stdin lines */
+static void
+chain_binding(int job)
+{
+	char fin[512], fout[512], cmd[1600], line[128], key[160], cas[64];
+	const char *rundir = getenv("VERIF_RUNDIR");
+	FILE *f;
+	EX_CTR(c_bind, "cli_binding_replays");
+	EX_CTR(c_bindln, "cli_binding_lines");
+
+	if (rundir == NULL || ex.tree == NULL) {
+		return;
+	}
+	snprintf(fin, sizeof(fin), "%s/c07chain.%d.in", rundir, job);
+	snprintf(fout, sizeof(fout), "%s/c07chain.%d.out", rundir, job);
+	if (job < 14 * 14) {
+		/* (a) pair of business-day letters as two arguments */
+		int ix[2] = {job / 14, job % 14};
+		struct durs_s ds;
+		int n = 0;
+		if ((f = fopen(fin, "w")) == NULL) {
+			return;
+		}
+		for (int w = 0; w < NCWIN; w++) {
+			int rd0 = rc_rd(chain_win[w][0], chain_win[w][1], chain_win[w][2]);
+			for (int k = 0; k < CWIN_DAYS; k++) {
+				const struct rc_day *p = rc_get(rd0 + k);
+				fprintf(f, "%04d-%02d-%02d\n", p->y, p->m, p->d);
+			}
+		}
+		fclose(f);
+		snprintf(cmd, sizeof(cmd), "'%s/src/dadd' -- %s %s < '%s' > '%s' 2>/dev/null", ex.tree, letters[ix[0]].txt, letters[ix[1]].txt, fin, fout);
+		if (system(cmd)) {
+			;
+		}
+		++*c_bind;
+		chain_durs(&ds, ix, 2, 0);
+		snprintf(key, sizeof(key), "binding chain dadd -- %s %s < days", letters[ix[0]].txt[0] == '+' ? "+Ab" : "-Ab", letters[ix[1]].txt[0] == '+' ? "+Cb" : "-Cb");
+		if ((f = fopen(fout, "r")) == NULL) {
+			return;
+		}
+		for (int w = 0; w < NCWIN; w++) {
+			int rd0 = rc_rd(chain_win[w][0], chain_win[w][1], chain_win[w][2]);
+			for (int k = 0; k < CWIN_DAYS; k++) {
+				const struct rc_day *p = rc_get(rd0 + k);
+				struct dt_dt_s v;
+				char got[64] = "";
+				if (!fgets(line, sizeof(line), f)) {
+					line[0] = '\0';
+				}
+				line[strcspn(line, "\n")] = '\0';
+				n++;
+				++*c_bindln;
+				if (cal_value(C_YMD, p, &v) > 0) {
+					dt_strfdt(got, sizeof(got), NULL, apply_durs(v, &ds));
+				}
+				if (strcmp(got, line)) {
+					snprintf(cas, sizeof(cas), "cbind %d %d", job, p->rd);
+					snprintf(cmd, sizeof(cmd), "echo %04d-%02d-%02d | dadd -- %s %s", p->y, p->m, p->d, letters[ix[0]].txt, letters[ix[1]].txt);
+					ex_viol(key, p->rd, cas, cmd, "binary printed '%s', library level (same list builder) observed '%s'", line, got);
+				}
+			}
+		}
+		fclose(f);
+	} else {
+		/* (b) one start day as argument, every pair as a stdin line */
+		int di = job - 14 * 14;
+		const struct rc_day *p = rc_get(rc_rd(chain_win[di / CWIN_DAYS][0], chain_win[di / CWIN_DAYS][1], chain_win[di / CWIN_DAYS][2]) + di % CWIN_DAYS);
+		struct dt_dt_s v;
+		int ix[2];
+		if ((f = fopen(fin, "w")) == NULL || cal_value(C_YMD, p, &v) <= 0) {
+			return;
+		}
+		for (ix[0] = 0; ix[0] < NLET; ix[0]++) {
+			for (ix[1] = 0; ix[1] < NLET; ix[1]++) {
+				fprintf(f, "%s %s\n", letters[ix[0]].txt, letters[ix[1]].txt);
+			}
+		}
+		fclose(f);
+		snprintf(cmd, sizeof(cmd), "'%s/src/dadd' %04d-%02d-%02d < '%s' > '%s' 2>/dev/null", ex.tree, p->y, p->m, p->d, fin, fout);
+		if (system(cmd)) {
+			;
+		}
+		++*c_bind;
+		snprintf(key, sizeof(key), "binding chain durations on stdin: dadd DATE < lines");
+		if ((f = fopen(fout, "r")) == NULL) {
+			return;
+		}
+		for (ix[0] = 0; ix[0] < NLET; ix[0]++) {
+			for (ix[1] = 0; ix[1] < NLET; ix[1]++) {
+				struct durs_s ds;
+				char got[64] = "";
+				if (!fgets(line, sizeof(line), f)) {
+					line[0] = '\0';
+				}
+				line[strcspn(line, "\n")] = '\0';
+				++*c_bindln;
+				chain_durs(&ds, ix, 2, 1);
+				dt_strfdt(got, sizeof(got), NULL, apply_durs(v, &ds));
+				if (strcmp(got, line)) {
+					snprintf(cas, sizeof(cas), "cbind %d %d", job, ix[0] * NLET + ix[1]);
+					snprintf(cmd, sizeof(cmd), "echo '%s %s' | dadd %04d-%02d-%02d", letters[ix[0]].txt, letters[ix[1]].txt, p->y, p->m, p->d);
+					ex_viol(key, p->rd, cas, cmd, "binary printed '%s', library level (same list builder) observed '%s'", line, got);
+				}
+			}
+		}
+		fclose(f);
+	}
+	unlink(fin);
+	unlink(fout);
+}
+#define NCHAINJOBS	(14 * 14 + NCWIN * CWIN_DAYS)
+
 /* ---- binding: the dadd binary over all days ---- */
 struct bind_s {
 	int cal;
@@ -356,9 +746,32 @@ main(int argc, char *argv[])
 	c_skip_range = ex_ctr("skipped:result outside 1601-01-01..4095-12-31");
 	c_memo = ex_ctr("results identical to an already observed value for the same target (not observed again)");
 	c_wkstart = ex_ctr("additions starting on a Saturday or Sunday");
+	c_chain = ex_ctr("chains of durations in one invocation compared");
+	c_chain_skip = ex_ctr("skipped:chain with a month step in a calendar without months, or a bizda value passing through a weekend day");
+	c_chain_forms = ex_ctr("chains whose duration list differs between the argument form and the one-string form (both judged)");
 	mk_tables();
+	mk_letters();
 
 	if (ex.cas) {
+		{
+			int cc, crd, clen, cix[MAXCHAIN];
+			if (sscanf(ex.cas, "chain %d %d %d %d %d %d", &cc, &crd, &clen, cix, cix + 1, cix + 2) == 6 && cc >= 0 && cc < NCAL &&
+			    crd >= 0 && crd < RC_NDAYS && clen >= 2 && clen <= MAXCHAIN && cix[0] >= 0 && cix[0] < NLET && cix[1] >= 0 && cix[1] < NLET &&
+			    cix[2] >= 0 && cix[2] < NLET) {
+				struct dt_dt_s cv;
+				if (cal_value(cc, rc_get(crd), &cv) <= 0) {
+					return ex_replay_result(1, "day not accepted in calendar %s", cal_name[cc]);
+				}
+				return ex_replay_result(do_chain(rc_get(crd), cc, cv, cix, clen, 1) != 0, "chain cal=%s rd=%d", cal_name[cc], crd);
+			}
+			if (!strncmp(ex.cas, "cbind ", 6)) {
+				int job = atoi(ex.cas + 6);
+				if (job >= 0 && job < NCHAINJOBS) {
+					chain_binding(job);
+				}
+				return ex_replay_result(ex.nviol != 0, "chain binding job %d", job);
+			}
+		}
 		int c, n, rd, rcv;
 		struct dt_dt_s v;
 		struct durs_s ds;
@@ -388,11 +801,16 @@ main(int argc, char *argv[])
 		"|n|-th Monday-Friday state strictly after (before) the start in the reference machine, observed as dt_dconv(DT_DAISY), as default output in "
 		"the input's calendar (parsed fields) and as %%F; a result whose 16 bytes equal a value already observed to agree for the same (calendar, target) "
 		"in the same year slice is not observed again (counted). reading: results outside 1601..4095 are outside the property. "
+		"CHAIN section: several durations in ONE invocation, built by the tool's own list builder (dt_io_strpdtdur/__add_dur with one parser state, as dadd's main() "
+		"and its stdin-duration mode do; both forms) and applied one after the other (dadd_add); oracle = the single-step oracles composed (consecutive month steps add up and "
+		"are cropped when another unit follows or at the end; month steps only for ymd ymcw bizda; bizda chains through a weekend day skipped). "
 		"non-trivial = the start is a weekend day, or a weekend lies between start and target, or the month changes", NCAL);
-	ex_meta("bound", "%s tier: all 911,280 days x %d calendars x n in +-[1,%d] and +-{383,384,385,386,389,390,391,500,640,1000,1279,1280,1281,2600,5000,10000}%s; binding runs: %d",
+	ex_meta("bound", "%s tier: all 911,280 days x %d calendars x n in +-[1,%d] and +-{383,384,385,386,389,390,391,500,640,1000,1279,1280,1281,2600,5000,10000}%s; CHAIN: the 3 x 28 start days from 2023-12-18, 2024-02-15, 1999-12-20 x every "
+		"held representation x all ordered %s over the alphabet {+-1..7b, +-1d, +-1w, +-1mo}, plus the dadd binary on all 196 ordered pairs of b letters (window days on stdin) and, "
+		"for every start day, all 400 pairs as stdin lines; binding runs: %d",
 		ex.thorough ? "thorough" : "quick", NCAL, ex.thorough ? RANGE_WIDE : RANGE_QUICK,
 		ex.thorough ? "" : "; the days of the four 8-year windows 1601-08 1897-1904 1997-2004 4088-95 (their years start on every weekday, leap and non-leap) x all n in +-[1,800]",
-		ex.thorough ? NBIND : NBIND_QUICK);
+		ex.thorough ? "pairs and triples" : "pairs", ex.thorough ? NBIND : NBIND_QUICK);
 	ex_meta("ord", "ordered coordinate of a failure class (lo/hi in findings) = day ordinal rd of the TARGET state (0 = 1601-01-01; day count - 1); binding classes: rd of the input line");
 	ex_meta("binding", "dadd binary of the same build, all 911,280 days (bizda: the Monday-Friday days) on stdin per (calendar, +-Nb[, -f]) entry, "
 		"byte-compared with the library-level observation");
@@ -434,6 +852,17 @@ main(int argc, char *argv[])
 				ex_sample("state %04d-%02d-%02d %s (ISO %04d-W%02d-%d, bd %d%s) x %d calendars x %d signed business-day counts",
 					  p->y, p->m, p->d, rc_abbr_wday[p->wd], p->isoy, p->isow, p->wd, p->bd, p->isbd ? "" : ", weekend", NCAL, nn + (in_w8(p->y) ? nw : 0));
 			}
+		}
+	}
+	/* CHAIN section: one slice per start day of the windows, then the binary runs */
+	for (int di = 0; di < NCWIN * CWIN_DAYS && !ex_expired_now(); di++) {
+		if (ex_mine((uint64_t)di)) {
+			chains_of_day(rc_get(rc_rd(chain_win[di / CWIN_DAYS][0], chain_win[di / CWIN_DAYS][1], chain_win[di / CWIN_DAYS][2]) + di % CWIN_DAYS));
+		}
+	}
+	for (int job = 0; job < NCHAINJOBS && !ex_expired_now(); job++) {
+		if (ex_mine((uint64_t)job)) {
+			chain_binding(job);
 		}
 	}
 	{
